@@ -1247,3 +1247,114 @@ func arrayFilledByLoop(p *Prog, fn *ssa.Function, al *ssa.Alloc, d int, seen map
 	}
 	return "no counted loop that fills the table was recognised in " + fnName(fn)
 }
+
+// ---- MAKEEXACT: the reported make/model is the file's own text, or the table name of an exact hit -----------------
+//
+// ParseCameraMake and ParseCameraModel return the name to report. It must be the value read from the file
+// (string(ParseBuffer(t))) or, for an exact hit in a name table — a call of a *FromString lookup whose ok result is
+// true on that path — the String() of the value found (MODELTBL shows that this reproduces the key). A name produced
+// any other way (a prefix match, a normalised spelling, a default) is not what the file says.
+func ruleMakeExact(p *Prog, r *Report) {
+	for _, nm := range []string{"ParseCameraMake", "ParseCameraModel"} {
+		f := p.Func("exif2", "*ifdReader", nm)
+		key := "exif2.(*ifdReader)." + nm + " | the reported name is the file's text or an exact table hit"
+		if f == nil {
+			r.Undecided("MAKEEXACT", key, "-", "unresolved anchor")
+			continue
+		}
+		at := p.posStr(f.Pos())
+		bad := ""
+		nRet := 0
+		var okStr func(v ssa.Value, blk *ssa.BasicBlock, d int) string
+		okStr = func(v ssa.Value, blk *ssa.BasicBlock, d int) string {
+			if d > 6 {
+				return "origin too deep"
+			}
+			switch x := v.(type) {
+			case *ssa.Convert:
+				// string(buf): buf must be the tag's value
+				src := x.X
+				for i := 0; i < 4; i++ {
+					if sl, ok := src.(*ssa.Slice); ok {
+						src = sl.X
+						continue
+					}
+					break
+				}
+				if c, ok := src.(*ssa.Call); ok {
+					if sc := c.Call.StaticCallee(); sc != nil && sc.Name() == "ParseBuffer" {
+						return ""
+					}
+				}
+				return "a string not converted from the tag's value"
+			case *ssa.Phi:
+				for i, e := range x.Edges {
+					if w := okStr(e, x.Block().Preds[i], d+1); w != "" {
+						return w
+					}
+				}
+				return ""
+			case *ssa.Call:
+				sc := x.Call.StaticCallee()
+				if sc == nil || sc.Name() != "String" || len(x.Call.Args) != 1 {
+					return "the result of " + calleeName(&x.Call)
+				}
+				// the receiver: result 0 of a *FromString lookup (possibly converted), under its ok == true
+				rv := x.Call.Args[0]
+				for i := 0; i < 3; i++ {
+					if cv, ok := rv.(*ssa.Convert); ok {
+						rv = cv.X
+					} else if ct, ok := rv.(*ssa.ChangeType); ok {
+						rv = ct.X
+					} else {
+						break
+					}
+				}
+				ex, ok := rv.(*ssa.Extract)
+				if !ok || ex.Index != 0 {
+					return "String() of a value that is not the result of a table lookup"
+				}
+				lk, ok := ex.Tuple.(*ssa.Call)
+				if !ok || lk.Call.StaticCallee() == nil || !strings.HasSuffix(lk.Call.StaticCallee().Name(), "FromString") {
+					return "String() of the result of " + shortVal(ex.Tuple) + ", which is not an exact *FromString lookup"
+				}
+				// FromString must be an exact map lookup: its body indexes a map with its parameter
+				exact := false
+				eachInstr(lk.Call.StaticCallee(), func(_ *ssa.BasicBlock, _ int, in ssa.Instruction) {
+					if l, ok := in.(*ssa.Lookup); ok && l.CommaOk && len(lk.Call.StaticCallee().Params) == 1 && l.Index == ssa.Value(lk.Call.StaticCallee().Params[0]) {
+						exact = true
+					}
+				})
+				if !exact {
+					return fnName(lk.Call.StaticCallee()) + " is not a plain map lookup of its argument"
+				}
+				hit := false
+				for _, cd := range condsAt(x.Block()) {
+					if e2, ok := cd.V.(*ssa.Extract); ok && cd.True && e2.Tuple == ex.Tuple && e2.Index == 1 {
+						hit = true
+					}
+				}
+				if !hit {
+					return "String() of a lookup result without the lookup having succeeded on that path"
+				}
+				return ""
+			}
+			return "a value of unrecognised origin (" + shortVal(v) + ")"
+		}
+		eachInstr(f, func(b *ssa.BasicBlock, _ int, in ssa.Instruction) {
+			rt, ok := in.(*ssa.Return)
+			if !ok || len(rt.Results) != 2 {
+				return
+			}
+			nRet++
+			if w := okStr(rt.Results[1], b, 0); w != "" && bad == "" {
+				bad = "the name returned at " + p.posStr(instrPos(rt)) + " is " + w + ": a well-formed file's Make/Model is then reported as something other than what the file says"
+			}
+		})
+		if bad != "" {
+			r.Bad("MAKEEXACT", key, at, bad)
+		} else {
+			r.OK("MAKEEXACT", key, at, fmt.Sprintf("%d returns: string(ParseBuffer(t)) or String() of an exact lookup hit", nRet))
+		}
+	}
+}
